@@ -9,8 +9,8 @@ specfun("res_of", ["Change"], "Seq[Opt[Resource]]", note="change.get_changed_res
 specfun("contains_p", ["Resource", "Resource"], "Bool", note="folder.contains(resource): resource lies below the folder")
 contract("Change.get_changed_resources", abstract=True, pure=True, heap_independent=True, params={"self": "Change"}, returns="Seq[Opt[Resource]]",
          ensures=["result == res_of(self)"])
-contract("File.is_folder", source="rope.base.resources:File.is_folder", inline=True, params={"self": "File"}, returns="Bool")
-contract("Folder.is_folder", source="rope.base.resources:Folder.is_folder", inline=True, params={"self": "Folder"}, returns="Bool")
+contract("File.is_folder", source="rope.base.resources:File.is_folder", inline=True, params={"self": "File"}, returns="Bool", ensures=["not result"])
+contract("Folder.is_folder", source="rope.base.resources:Folder.is_folder", inline=True, params={"self": "Folder"}, returns="Bool", ensures=["result"])
 contract("Resource.contains", abstract=True, pure=True, heap_independent=True, params={"self": "Resource", "resource": "Resource"}, returns="Bool",
          ensures=["result == contains_p(self, resource)"], note="Folder.contains: path containment (checked natively by the c11-histories stand-in)")
 specdef("related", {"r": "Resource", "c": "Resource"}, "Bool",
